@@ -158,7 +158,7 @@ def selftest(ctx, module, files, fn, what, required=True):
 
 def models(ctx):
     q = not ctx.thorough
-    ctx.tlc_mc("MC_Lru", cfg="MC_Lru_quick.cfg" if q else "MC_Lru_thorough.cfg",
+    ctx.tlc_mc("MC_Lru", cfg="MC_Lru_quick.cfg" if q else "MC_Lru.cfg",
                note="Lru contract, capacity 1..3 x 4 keys x 2 values: capacity, callback exactly once / never for a retrievable entry, "
                     "victim = oldest logical-clock stamp, order = recency")
     sfx = "q" if q else "t"
@@ -166,6 +166,9 @@ def models(ctx):
                note="mechanism of lru_map.rs with the repaired clear(): refines Lru.tla, no node lost, put never refused")
     ctx.tlc_mc("MC_LruListMech", cfg="MC_LruListMech_code_refines_%s.cfg" % sfx, timeout=1500,
                note="mechanism of lru_map.rs as written: refines Lru.tla (a refused put changes nothing)")
+    if not q:
+        ctx.tlc_mc("MC_LruListMech", cfg="MC_LruListMech_code_lost_q.cfg", expect="NoLostNodes",
+                   note="mechanism as written: after clear() free + in-use nodes < capacity")
     ctx.tlc_mc("MC_LruListMech", cfg="MC_LruListMech_code_refusal_q.cfg", expect="NoSpuriousRefusal",
                note="mechanism as written: clear() loses free nodes, a later put is refused although there is room (C17-KF4, patch C17-1)")
 
